@@ -61,7 +61,8 @@ fn cmd_conn_replay(a: &HashMap<String, String>) -> i32 {
                 continue;
             }
         }
-        if transport != "stream" {
+        let wsq = a.get("wsq").map(|s| s == "1").unwrap_or(false) && transport == "ws";
+        if transport != "stream" && !wsq {
             continue; // datagram / websocket behaviours are replayed on real sockets (conn-net-replay)
         }
         let flavor = cfg["flavor"].as_str().unwrap_or("blocking");
@@ -72,7 +73,7 @@ fn cmd_conn_replay(a: &HashMap<String, String>) -> i32 {
             let verdict = if flavor == "blocking" {
                 conn::replay_blocking(pool.clone(), verify, steps.clone(), seed + lineno as u64)
             } else {
-                conn::replay_tokio(pool.clone(), verify, steps.clone(), seed + lineno as u64)
+                conn::replay_tokio_on(pool.clone(), verify, steps.clone(), seed + lineno as u64, wsq)
             };
             match verdict {
                 conn::ReplayVerdict::Ok => ok += 1,
